@@ -25,8 +25,12 @@ class IO(Plugin):
     #   ops items: ["R", cap, prefill] | ["W", [n1, ...]] | "F" | "S"
     def impl_line(self, c):
         hx = lambda bs: "".join(f"{b:02x}" for b in bs) or "-"
-        rs = ",".join(x if isinstance(x, str) else f"D{x[1]}" for x in c["rs"]) or "-"
-        ws = ",".join(x if isinstance(x, str) else f"A{x[1]}" for x in c["ws"]) or "-"
+        # every scripted error gets an io::ErrorKind (Other, UnexpectedEof, ConnectionReset, BrokenPipe, ...) derived from the
+        # case itself: the model propagates every kind alike, the implementation must too
+        salt = len(c["stream"]) + 3 * len(c["ops"]) + 5 * len(c["rs"])
+        ek = lambda j, x: f"E{(salt + j) % 7}" if x == "E" else x
+        rs = ",".join(ek(j, x) if isinstance(x, str) else f"D{x[1]}" for j, x in enumerate(c["rs"])) or "-"
+        ws = ",".join(ek(j + 2, x) if isinstance(x, str) else f"A{x[1]}" for j, x in enumerate(c["ws"])) or "-"
         ops = []
         for o in c["ops"]:
             if o == "F" or o == "S":
